@@ -40,6 +40,8 @@ def insert_into(
     dist: int,
     insert: Fragment,
     parent: Optional["Node"],
+    open_start: int = 0,
+    open_end: int = 0,
 ) -> Fragment | None:
     a = content.find_index(dist)
     index, offset = a["index"], a["offset"]
@@ -49,7 +51,19 @@ def insert_into(
             return None
         return content.cut(0, dist).append(insert).append(content.cut(dist))
     assert child
-    inner = insert_into(child.content, dist - offset - 1, insert, child)
+    # A node that is open in the slice only holds part of its content: it is
+    # completed and validated when the slice is joined into the document. Only
+    # nodes that are closed inside the slice have to accept the gap content here.
+    on_left = open_start > 0 and index == 0
+    on_right = open_end > 0 and index == content.child_count - 1
+    inner = insert_into(
+        child.content,
+        dist - offset - 1,
+        insert,
+        None if (on_left or on_right) else child,
+        open_start - 1 if on_left else 0,
+        open_end - 1 if on_right else 0,
+    )
     if inner:
         return content.replace_child(index, child.copy(inner))
     return None
@@ -68,7 +82,14 @@ class Slice:
         return self.content.size - self.open_start - self.open_end
 
     def insert_at(self, pos: int, fragment: Fragment) -> Optional["Slice"]:
-        content = insert_into(self.content, pos + self.open_start, fragment, None)
+        content = insert_into(
+            self.content,
+            pos + self.open_start,
+            fragment,
+            None,
+            self.open_start,
+            self.open_end,
+        )
         if content:
             return Slice(content, self.open_start, self.open_end)
         return None
